@@ -552,6 +552,14 @@ func c06Overlap(tk *task, n *simnet.Net, hist [][]byte, probe []byte, vip, aip n
 	am.SetQuestion("whole.attacker.test.", dns.TypeA)
 	am.Id = 4243
 	whole, _ := am.Pack()
+	// And a long one: its length prefix differs from a short message's in
+	// the first octet too.
+	lm := &dns.Msg{}
+	lm.SetQuestion("whole.attacker.test.", dns.TypeA)
+	lm.Id = 4243
+	lm.SetEdns0(1232, false)
+	lm.IsEdns0().Option = append(lm.IsEdns0().Option, &dns.EDNS0_PADDING{Padding: make([]byte, 300)})
+	long, _ := lm.Pack()
 	aids := map[uint16]string{4242: "probe.attacker.test.", 4243: "whole.attacker.test."}
 
 	// UDP: one burst from two sockets.
@@ -635,6 +643,18 @@ func c06Overlap(tk *task, n *simnet.Net, hist [][]byte, probe []byte, vip, aip n
 		}
 		vc, ac := open(vip), open(aip)
 		for i, q := range hist {
+			if i%3 == 1 {
+				// The victim's length prefix arrives in two pieces, and a
+				// whole message of the attacker's in between.
+				fq := withPrefix(q)
+				_, _ = vc.Write(fq[:1])
+				time.Sleep(2 * time.Millisecond)
+				_, _ = ac.Write(withPrefix(long))
+				time.Sleep(2 * time.Millisecond)
+				_, _ = vc.Write(fq[1:])
+
+				continue
+			}
 			_, _ = vc.Write(withPrefix(q))
 			if i%2 == 0 {
 				_, _ = ac.Write(withPrefix(whole))
